@@ -34,6 +34,7 @@ type Run struct {
 	Violations   []Violation
 	KnownPrinted []string
 	Inconclusive []string
+	NoEvidence   bool // replay runs do not rewrite the evidence file
 	known        *KnownFile
 }
 
@@ -154,7 +155,9 @@ func (r *Run) Finish() int {
 	wall := time.Since(r.start).Seconds()
 	// replay files
 	maxReplays := 40
-	os.RemoveAll(filepath.Join(r.Root, "replays", r.Prop)) // witnesses of earlier runs are stale
+	if !r.NoEvidence {
+		os.RemoveAll(filepath.Join(r.Root, "replays", r.Prop)) // witnesses of earlier runs are stale
+	}
 	for i := range r.Violations {
 		v := &r.Violations[i]
 		if i >= maxReplays {
@@ -195,8 +198,10 @@ func (r *Run) Finish() int {
 		ev["assumptions"] = []string{}
 	}
 	b, _ := json.MarshalIndent(ev, "", " ")
-	os.MkdirAll(filepath.Join(r.Root, "evidence"), 0o755)
-	os.WriteFile(filepath.Join(r.Root, "evidence", r.Prop+".json"), append(b, '\n'), 0o644)
+	if !r.NoEvidence {
+		os.MkdirAll(filepath.Join(r.Root, "evidence"), 0o755)
+		os.WriteFile(filepath.Join(r.Root, "evidence", r.Prop+".json"), append(b, '\n'), 0o644)
+	}
 
 	for _, l := range r.KnownPrinted {
 		fmt.Println(l)
